@@ -522,7 +522,7 @@ func genC10(r *rng, tier string, emit func(string)) {
 		if r.chance(1, 25) {
 			leaf.crit = true
 		}
-		if r.chance(1, 30) {
+		if r.chance(1, 12) { // the leaf is itself a trust anchor (pinning): its own validity, name and usage still count
 			leaf.pool = "L"
 		}
 		// two DIFFERENT certificates with the same issuer name and serial number (a CA never issues that, an attacker
